@@ -42,6 +42,11 @@ class _Centroid:
         """Merge two centroids into one."""
         total = self.count + other.count
         new_mean = (self.mean * self.count + other.mean * other.count) / total
+        # Rounding can push the weighted mean just outside [self.mean, other.mean]
+        # (e.g. three points at 0.1 average to 0.10000000000000002); keep it inside so
+        # centroids stay ordered and within the observed min/max.
+        lo, hi = min(self.mean, other.mean), max(self.mean, other.mean)
+        new_mean = min(max(new_mean, lo), hi)
         return _Centroid(mean=new_mean, count=total)
 
 
@@ -253,7 +258,9 @@ class TDigest(QuantileSketch):
                     # First centroid: interpolate from min
                     if self._min_value is not None and target_count < centroid.count / 2:
                         t = target_count / (centroid.count / 2)
-                        return self._min_value + t * (centroid.mean - self._min_value)
+                        return min(
+                            centroid.mean, self._min_value + t * (centroid.mean - self._min_value)
+                        )
                     return centroid.mean
                 if i == len(self._centroids) - 1:
                     # Last centroid: interpolate to max
@@ -261,14 +268,19 @@ class TDigest(QuantileSketch):
                         remaining = self._total_count - running_count
                         if target_count > running_count + remaining / 2:
                             t = (target_count - running_count - remaining / 2) / (remaining / 2)
-                            return centroid.mean + t * (self._max_value - centroid.mean)
+                            return min(
+                                self._max_value,
+                                centroid.mean + t * (self._max_value - centroid.mean),
+                            )
                     return centroid.mean
                 # Middle centroid: interpolate between adjacent centroids
                 prev = self._centroids[i - 1]
                 t = (target_count - left_weight) / centroid.count
                 if t < 0.5:
                     # Closer to previous centroid
-                    return prev.mean + (centroid.mean - prev.mean) * (0.5 + t)
+                    return min(
+                        centroid.mean, prev.mean + (centroid.mean - prev.mean) * (0.5 + t)
+                    )
                 # Closer to this centroid
                 return centroid.mean
 
